@@ -224,7 +224,7 @@ def analyse_store(ix: Index, ty, f: FuncInfo, node, gtext: str, depth=0):
       lookup = True
   kpaths: typing.Set[str] = set()
   for k in key_exprs:
-    kpaths |= sl.deps(k, value_only=True)
+    kpaths |= _key_paths(sl, k)
   # (what a look-up of the container itself returned is not a dependence of the value that is stored)
   sl.ignore = lambda v: (isinstance(v, ast.Call) and isinstance(v.func, ast.Attribute) and v.func.attr in ("get", "pop") and unparse(v.func.value).split(".")[-1] == gname) \
       or (isinstance(v, ast.Subscript) and unparse(v.value).split(".")[-1] == gname)
@@ -240,11 +240,76 @@ def analyse_store(ix: Index, ty, f: FuncInfo, node, gtext: str, depth=0):
   if missing:
     return ("violation", f"the stored value depends on {', '.join('`' + m + '`' for m in missing)}, which the key `{unparse(key)}` "
                          f"({', '.join(sorted(kpaths)) or 'no parameter'}) does not contain: a later call that differs only there gets the earlier call's result")
+  for k_ in sorted(kpaths):
+    if "." not in k_:
+      mc = _mutable_object_param(ix, f, k_)
+      if mc is not None:
+        return ("violation", f"the entry is keyed by the {mc} object `{k_}` itself, and a {mc} can be modified after the entry was stored: the memo is never refreshed, so a later call "
+                             "on the modified object gets what was computed for its earlier content")
   unp = sorted({k.split(".")[0] for k in kpaths if _pinned(f, k.split(".")[0], node) is False})
   if unp:
     return ("violation", f"the key `{unparse(key)}` is built from {', '.join('`' + u + '`' for u in unp)}, whose type nothing pins (no exact type test, annotation {_ann(f, unp[0])}): "
                          "values of different types that compare equal (1, 1.0, True) share one entry, so the result for one is returned for the other")
   return ("sound", f"memo: the value depends on {', '.join(sorted(vdeps)) or 'nothing'}; the key `{unparse(key)}` covers it")
+
+
+LOSSLESS_WRAPPERS = {"tuple", "sorted", "frozenset", "str", "repr", "list", "id"}
+
+
+def _key_paths(sl: "_Slice", k, depth=0) -> typing.Set[str]:
+  """parameter paths that the key contains *as themselves*: a component that is only a function of a parameter
+  (`byte_1 & 0xF7`, `text.lower()`, `round(t, 3)`) does not determine it, so it covers nothing"""
+  if depth > 6 or k is None:
+    return set()
+  if isinstance(k, (ast.Tuple, ast.List)):
+    out = set()
+    for e in k.elts:
+      out |= _key_paths(sl, e, depth + 1)
+    return out
+  if isinstance(k, ast.IfExp):
+    return _key_paths(sl, k.body, depth + 1) | _key_paths(sl, k.orelse, depth + 1)
+  if isinstance(k, ast.Call):
+    fn = unparse(k.func)
+    if fn in LOSSLESS_WRAPPERS and len(k.args) == 1 and not k.keywords:
+      return _key_paths(sl, k.args[0], depth + 1)
+    if isinstance(k.func, ast.Attribute) and k.func.attr == "items" and not k.args:
+      return _key_paths(sl, k.func.value, depth + 1)
+    return set()
+  if isinstance(k, (ast.Name, ast.Attribute)):
+    p = _path(k)
+    if p is None:
+      return set()
+    root = p.split(".")[0]
+    if root in sl.params and root not in sl.defs:
+      return {p}
+    if root in sl.defs and "." not in p:
+      out = set()
+      for (v, _st) in sl.defs[root]:
+        out |= _key_paths(sl, v, depth + 1)
+      return out
+    if root in sl.params:
+      return {p}
+  return set()
+
+
+def _mutable_object_param(ix: Index, f: FuncInfo, root: str) -> typing.Optional[str]:
+  """the parameter is annotated with a class of the package whose instances can be modified (not an enumeration, not a frozen
+  dataclass / NamedTuple): an entry keyed by such an object is not refreshed when the object changes"""
+  for a in f.node.args.posonlyargs + f.node.args.args + f.node.args.kwonlyargs:
+    if a.arg == root and a.annotation is not None:
+      if any(isinstance(x, ast.Name) and x.id == "Type" or isinstance(x, ast.Attribute) and x.attr == "Type" for x in ast.walk(a.annotation)):
+        return None
+      for x in ast.walk(a.annotation):
+        nm = x.id if isinstance(x, ast.Name) else (x.attr if isinstance(x, ast.Attribute) else None)
+        if nm is None:
+          continue
+        for ci in ix.classes.values():
+          if ci.name == nm and not ix.is_enum(ci):
+            frozen = any("frozen=True" in unparse(d_) for d_ in ci.node.decorator_list) or any("NamedTuple" in b_ for c_ in ix.mro(ci) for b_ in c_.ext_bases)
+            setters = [m_ for c_ in ix.mro(ci) for m_ in c_.methods if m_.startswith(("set_", "push_", "put_", "add_", "remove_"))]
+            if not frozen and setters:
+              return ci.name
+  return None
 
 
 def _ann(f, name):
@@ -281,7 +346,7 @@ def _through_callers(ix: Index, ty, helper: FuncInfo, key, value, gtext):
           continue
         found = True
         sl = _Slice(ix, g, ty)
-        kpaths = sl.deps(ka, value_only=True)
+        kpaths = _key_paths(sl, ka)
         vdeps = sl.deps(va)
         missing = sorted(d for d in vdeps if not any(d == k or d.startswith(k + ".") for k in kpaths))
         if missing:
